@@ -177,6 +177,71 @@ def random_job(job):
     return stats, fails
 
 
+def gen_gir_rows(rng, as_datamodel):
+    """A small well-formed statement list with nested blocks (ids unique, a block's markers carry the block id)."""
+    import types
+    next_id = [10 + rng.randrange(5)]
+    recs = []
+
+    def fresh():
+        next_id[0] += rng.choice([1, 1, 2])
+        return next_id[0]
+
+    def block(depth):
+        for _ in range(rng.randint(1, 3)):
+            k = rng.random()
+            if k < 0.45 and depth < 3:
+                owner = fresh()
+                recs.append({"stmt_id": owner, "operation": rng.choice(["if_stmt", "while_stmt", "method_decl"]), "name": rng.choice(["f", "g", None])})
+                for _ in range(rng.choice([1, 1, 2])):
+                    b = fresh()
+                    recs.append({"stmt_id": b, "operation": "block_start", "name": None})
+                    if rng.random() < 0.85:
+                        block(depth + 1)
+                    recs.append({"stmt_id": b, "operation": "block_end", "name": None})
+            else:
+                recs.append({"stmt_id": fresh(), "operation": rng.choice(["assign_stmt", "call_stmt", "return_stmt"]), "name": rng.choice(["x", "y", "f", None])})
+    block(0)
+    if as_datamodel:
+        import lian.util.data_model as dmod
+        return list(dmod.DataModel(recs, columns=["stmt_id", "operation", "name"]))
+    return [types.SimpleNamespace(**r) for r in recs]
+
+
+def viewer_job(job):
+    """Block views of random GIR-like tables: the root view, every nested view and the view after append_other."""
+    seed, ntables = job
+    from lian.util.gir_block import GIRBlockViewer
+    from lib.monitors import girblock
+    rng = random.Random(seed)
+    fails, nq, ntab, nblocks = [], 0, 0, 0
+    for t in range(ntables):
+        rows = gen_gir_rows(rng, as_datamodel=(t % 3 == 0))
+        ranges, first = girblock.block_ranges(rows), girblock.first_index(rows)
+        if not ranges:
+            continue
+        ntab += 1
+        nblocks += len(ranges)
+        f = []
+        view = GIRBlockViewer(unit_gir=rows)
+        nq += girblock.battery(view, rows, -1, len(rows), ranges, first, f, "root")
+        if not f and t % 4 == 1:
+            # append_other: the visible statements of two views, concatenated, become the contents of the first
+            rows2 = gen_gir_rows(random.Random(seed * 7 + t), as_datamodel=False)
+            ids1 = {r.stmt_id for r in rows}
+            if not any(r.stmt_id in ids1 for r in rows2):
+                view2 = GIRBlockViewer(unit_gir=rows2)
+                view.append_other(view2)
+                both = rows + rows2
+                nq += girblock.battery(view, both, -1, len(both), girblock.block_ranges(both), girblock.first_index(both), f, "after-append_other")
+        for q, d in f[:3]:
+            fails.append((q, "viewer", d, {"viewer_seed": seed, "table": t,
+                                           "rows": [(r.stmt_id, r.operation, getattr(r, "name", None)) for r in rows]}))
+        if len(fails) > 20:
+            break
+    return {"sequences": 0, "queries": nq, "aborted": 0, "viewer_tables": ntab, "viewer_blocks": nblocks}, fails
+
+
 PIPE_SRC = {
     "python": ("m.py", "class A:\n    def __init__(self, v):\n        self.v = v\n    def get(self):\n        return self.v\n\ndef f(a, b=2):\n    t = 0\n    for i in [1, 2, 3]:\n        if i > a:\n            t = t + i\n        else:\n            t = t - b\n    return t\n\ndef g():\n    o = A(f(1))\n    return o.get()\n\nr = g()\n"),
     "javascript": ("m.js", "function f(a, b) { let t = 0; for (let i = 0; i < 3; i++) { if (i > a) { t = t + i; } else { t = t - b; } } return t; }\nclass A { constructor(v) { this.v = v; } get() { return this.v; } }\nlet r = new A(f(1, 2)).get();\n"),
@@ -247,10 +312,13 @@ def main():
             for i in range(0, len(allseq), chunk):
                 jobs.append(("enum", tn, allseq[i:i + chunk]))
     rjobs = [("rand", chk.seed * 7919 + i, 120 if not thorough else 1500) for i in range(16)]
+    rjobs += [("viewer", chk.seed * 104729 + i, 25 if not thorough else 400) for i in range(16)]
 
     def dispatch(job):
         if job[0] == "enum":
             return enum_job(job[1:])
+        if job[0] == "viewer":
+            return viewer_job(job[1:])
         return random_job(job[1:])
     seen_seq = 0
     for r in forkpool.run_jobs(dispatch, jobs + rjobs, timeout=3000, tag="c16"):
@@ -259,6 +327,15 @@ def main():
             continue
         st, fails = r.value
         chk.evaluated(st["queries"])
+        if r.item[0] == "viewer":
+            chk.count("block views: GIR-like tables whose root and nested views were compared with a scan", st["viewer_tables"])
+            chk.count("block views: blocks in those tables", st["viewer_blocks"])
+            chk.count("block views: query results compared with a scan", st["queries"])
+            for i in range(st["viewer_tables"]):
+                chk.nontrivial_case(("viewer", r.item[1], i))
+            for q, mut, d, c in fails:
+                chk.fail(f"{q}", d, c)
+            continue
         kind = "enumerated" if r.item[0] == "enum" else "random"
         chk.count(f"{kind} sequences run on the real DataModel", st["sequences"])
         chk.count("query results compared with a scan", st["queries"])
@@ -279,6 +356,9 @@ def main():
         for q, d in v["failures"]:
             chk.fail(f"pipeline:{q}", d, {"lang": v["lang"], "program": PIPE_SRC[v["lang"]][1]})
     chk.require("pipeline: query post-conditions evaluated", 200)
+    if not os.environ.get("VERIF_REPLAY"):
+        chk.require("block views: GIR-like tables whose root and nested views were compared with a scan", 100)
+        chk.require("block views: query results compared with a scan", 50000)
     chk.require("query results compared with a scan", 10000)
     chk.sample({"table": "gir-like", "sequence": [[["elem", "first", 0, 2], "indexed"], [["remove", 0, 2], "none"], [["reset"], "full"]],
                 "meaning": "each step = (mutator, query subset run right after it); the initial table is queried fully first so all caches are warm"})
